@@ -293,6 +293,36 @@ func Harness_C13_AppendConcatCollect() {
 	verifCover("end")
 }
 
+// Collect over chunks that are windows of ONE backing array (symbolic start,
+// length and spare capacity per chunk): the result is the concatenation of
+// the chunks as they were when f returned them, and the pool is untouched.
+// An implementation that adopts a chunk and appends into its spare capacity
+// overwrites the following windows before they are read.
+func Harness_C13_CollectSharedChunks() {
+	pool := verifIntSlice("pool", 5)
+	n := verifChoice("n", 3) + 1
+	los := make([]int, n)
+	his := make([]int, n)
+	for i := 0; i < n; i++ {
+		los[i] = verifChoice("lo", 4)
+		his[i] = los[i] + verifChoice("w", 3)
+		verifAssume(his[i] <= len(pool))
+	}
+	var want []int
+	for i := 0; i < n; i++ {
+		want = append(want, pool[los[i]:his[i]]...)
+	}
+	before := append([]int(nil), pool...)
+	idx := make([]int, n)
+	for i := range idx {
+		idx[i] = i
+	}
+	r := Collect(func(i int) []int { return pool[los[i]:his[i]] }, idx)
+	verifAssert(sameInts(r, want), "Collect concatenates chunks that share a backing array")
+	verifAssert(sameInts(pool, before), "Collect leaves the chunks' backing array as it was")
+	verifCover("end")
+}
+
 func Harness_C13_Distinct() {
 	s := symSlice("s", c13L())
 	r := Distinct(s)
